@@ -24,7 +24,7 @@ import (
 func TestVerifC02Replicas(t *testing.T) {
 	kit.Check(t, "C02", func(rt *rapid.T, k *kit.Case) {
 		n, q := 3, 2
-		if kit.Thorough() && rapid.IntRange(0, 3).Draw(rt, "five") == 0 {
+		if rapid.IntRange(0, 3).Draw(rt, "five") == 0 {
 			n, q = 5, 3
 		}
 		cfg := verifSimConfig{N: n, Q: q, Channels: rapid.IntRange(1, 2).Draw(rt, "channels"), RetainedCommands: 8,
@@ -32,7 +32,7 @@ func TestVerifC02Replicas(t *testing.T) {
 			Pebble:    kit.Thorough() && rapid.IntRange(0, 4).Draw(rt, "pebble") == 0, Timing: kit.Thorough() && rapid.IntRange(0, 3).Draw(rt, "timing") == 0}
 		verifRunCase(rt, k, "C02", cfg, func(s *verifSim) {
 			s.enabledOnly(map[string]bool{"C02": true})
-			w := verifScriptWeights{commit: 12, retry: 3, failover: 5, reinstall: 3, crash: 2, restart: 3, isolate: 3, cut: 4, heal: 3, drop: 5, flush: 3, staleCommit: 1, cleanFailover: 2, pageCut: 3}
+			w := verifScriptWeights{commit: 12, retry: 3, failover: 5, reinstall: 3, crash: 2, restart: 3, isolate: 3, cut: 4, heal: 3, drop: 5, flush: 3, staleCommit: 1, cleanFailover: 2, pageCut: 3, divergentTail: 4}
 			st := verifRunScript(rt, k, s, verifScriptOpts{prop: "C02", enabled: map[string]bool{"C02": true}, weights: w, steps: kit.Scale("C02STEPS", 30, 45), preSeed: verifPreSeed()})
 			k.SetNonTrivial(st.nontrivialC02)
 			k.LabelIf(st.acks > 0, "≥1 acknowledged commit")
